@@ -48,5 +48,6 @@ pub mod protocols {
         spin_and_get_forwarded_object, state_is_being_forwarded,
         state_is_forwarded_or_being_forwarded, write_forwarding_pointer,
     };
+    pub use crate::util::metadata::mark_bit::MarkState;
     pub use crate::util::verif_env;
 }
